@@ -387,3 +387,526 @@ Proof.
     + cbn [emit_runs] in E2. inversion E2; subst. exact Hf1.
     + apply Hf2. discriminate.
 Qed.
+
+(* ================= 5. Screen._last_row ================= *)
+Lemma snoc_cases {A} (l : list A) : l = [] \/ exists l0 x, l = l0 ++ [x].
+Proof. destruct l as [|a l]; [left; reflexivity|right]. destruct (exists_last (l := a :: l)) as (l0 & x & H); [discriminate|eauto]. Qed.
+
+Lemma last_opt_snoc {A} (l : list A) x : last_opt (l ++ [x]) = Some x.
+Proof.
+  induction l as [|a l IH]; [reflexivity|]. cbn [app last_opt]. destruct (l ++ [x]) eqn:E.
+  - destruct l; discriminate.
+  - exact IH.
+Qed.
+
+Lemma text_pos_utf8_last t0 : forall c i sc, Forall (fun ch : chr => 0 <= snd ch) t0 -> 1 <= snd c ->
+  text_pos_utf8 (t0 ++ [c]) (sc + calc_width t0 + snd c - 1) i sc = (i + zlen t0, sc + calc_width t0).
+Proof.
+  induction t0 as [|ch t0 IH]; intros c i sc Hw Hc.
+  - cbn [app text_pos_utf8 calc_width]. destruct (sc + 0 + snd c - 1 <? snd c + sc) eqn:E; [|lia].
+    rewrite zlen_nil. f_equal; lia.
+  - inversion Hw as [|? ? Hch Hw']; subst. cbn [app text_pos_utf8 calc_width].
+    assert (Hnn : 0 <= calc_width t0).
+    { clear -Hw'. induction Hw' as [|x l Hx _ IHl]; cbn [calc_width]; lia. }
+    destruct (sc + (snd ch + calc_width t0) + snd c - 1 <? snd ch + sc) eqn:E; [lia|].
+    replace (sc + (snd ch + calc_width t0) + snd c - 1) with ((sc + snd ch) + calc_width t0 + snd c - 1) by lia.
+    rewrite IH by assumption. rewrite zlen_cons. f_equal; lia.
+Qed.
+
+Lemma chr_ok_narrow_w ch : chr_ok false ch -> snd ch = 1.
+Proof. intros (_ & [H|[H _]] & _); [exact H|discriminate]. Qed.
+
+Lemma text_width_calc u text : Forall (chr_ok u) text -> text_width u text = calc_width text.
+Proof.
+  unfold text_width. destruct u; [reflexivity|].
+  induction 1 as [|ch l H _ IH]; [reflexivity|]. rewrite zlen_cons. cbn [calc_width]. rewrite <- IH.
+  rewrite (chr_ok_narrow_w ch H). lia.
+Qed.
+
+Lemma calc_text_pos_last u t0 c : Forall (chr_ok u) (t0 ++ [c]) ->
+  calc_text_pos u (t0 ++ [c]) (text_width u (t0 ++ [c]) - 1) = (zlen t0, text_width u t0).
+Proof.
+  intros H. apply Forall_app in H as [H0 Hc]. inversion Hc as [|? ? Hc' _]; subst.
+  unfold calc_text_pos, text_width. destruct u.
+  - rewrite calc_width_app. cbn [calc_width].
+    replace (calc_width t0 + (snd c + 0) - 1) with (0 + calc_width t0 + snd c - 1) by lia.
+    rewrite text_pos_utf8_last.
+    + f_equal; lia.
+    + eapply Forall_impl; [|exact H0]. intros ch (_ & [Hh|[_ Hh]] & _); lia.
+    + destruct Hc' as (_ & [Hh|[_ Hh]] & _); lia.
+  - unfold text_pos_narrow. rewrite zlen_app, zlen_cons, zlen_nil. pose proof (zlen_nonneg t0).
+    destruct (zlen t0 + (1 + 0) <=? zlen t0 + (1 + 0) - 1) eqn:E; [lia|]. f_equal; lia.
+Qed.
+
+Lemma run_ok_weak c r : run_ok c r -> run_ok' c r.
+Proof. destruct r as [[a cs] text]. intros (_ & H1 & H2). split; assumption. Qed.
+
+Lemma run_cells_split c a cs t1 t2 :
+  run_cells c (a, cs, t1 ++ t2) = run_cells c (a, cs, t1) ++ run_cells c (a, cs, t2).
+Proof. cbn [run_cells]. apply flat_map_app. Qed.
+
+Lemma row_cells_single c r : row_cells c [r] = run_cells c r.
+Proof. cbn [row_cells flat_map]. apply app_nil_r. Qed.
+
+Lemma row_width_single r : row_width [r] = calc_width (snd r).
+Proof. rewrite row_width_cons. change (row_width []) with 0. lia. Qed.
+
+Lemma last_row_ok c cols row :
+  row_ok c cols row -> row <> [] ->
+  (exists za zcs zc, row = [(za, zcs, [zc])] /\ last_row (g_utf8 c) row = Ok (row, 0, None))
+  \/ (exists nr0 ya ycs yc za zcs zc,
+        last_row (g_utf8 c) row = Ok (nr0 ++ [(za, zcs, [zc])], snd zc, Some (ya, ycs, [yc]))
+        /\ row_cells c row = row_cells c nr0 ++ run_cells c (ya, ycs, [yc]) ++ run_cells c (za, zcs, [zc])
+        /\ Forall (run_ok' c) (nr0 ++ [(za, zcs, [zc])]) /\ run_ok' c (ya, ycs, [yc])
+        /\ row_width nr0 + snd yc + snd zc = cols).
+Proof.
+  intros [Hruns Hwidth] Hne.
+  destruct (snoc_cases row) as [->|(front & [[za zcs] lt] & ->)]; [congruence|].
+  apply Forall_app in Hruns as [Hfront Hlast]. apply Forall_inv in Hlast as Hz.
+  destruct Hz as (Hltne & Hlt & Hzcs).
+  destruct (snoc_cases lt) as [->|(lt0 & zc & ->)]; [congruence|].
+  unfold last_row. rewrite last_opt_snoc, removelast_last.
+  rewrite (calc_text_pos_last _ lt0 zc Hlt).
+  pose proof (zlen_nonneg lt0) as Hl0.
+  assert (Hzc : chr_ok (g_utf8 c) zc) by (apply Forall_app in Hlt as [_ H]; apply Forall_inv in H; exact H).
+  assert (Hlt0 : Forall (chr_ok (g_utf8 c)) lt0) by (apply Forall_app in Hlt as [H _]; exact H).
+  assert (Hwz : text_width (g_utf8 c) [zc] = snd zc).
+  { rewrite text_width_calc by (constructor; [exact Hzc|constructor]). cbn [calc_width]. lia. }
+  rewrite row_width_app, row_width_single in Hwidth. cbn [snd] in Hwidth. rewrite calc_width_app in Hwidth.
+  cbn [calc_width] in Hwidth.
+  destruct (zlen lt0 =? 0) eqn:E0.
+  - (* Z starts its run *)
+    assert (lt0 = []) by (apply zlen_zero_nil; lia). subst lt0. cbn [app] in *.
+    destruct (snoc_cases front) as [->|(front0 & [[ya ycs] nt] & ->)].
+    + left. exists za, zcs, zc. split; reflexivity.
+    + right. rewrite last_opt_snoc, removelast_last.
+      apply Forall_app in Hfront as [Hfront0 Hy]. apply Forall_inv in Hy as Hyr.
+      destruct Hyr as (Hntne & Hnt & Hycs).
+      destruct (snoc_cases nt) as [->|(nt0 & yc & ->)]; [congruence|].
+      rewrite (calc_text_pos_last _ nt0 yc Hnt).
+      assert (Hyc : chr_ok (g_utf8 c) yc) by (apply Forall_app in Hnt as [_ H]; apply Forall_inv in H; exact H).
+      assert (Hnt0 : Forall (chr_ok (g_utf8 c)) nt0) by (apply Forall_app in Hnt as [H _]; exact H).
+      rewrite dropz_app_exact by reflexivity. rewrite takez_app_exact by reflexivity. rewrite Hwz.
+      exists (if zlen nt0 =? 0 then front0 else front0 ++ [(ya, ycs, nt0)]), ya, ycs, yc, za, zcs, zc.
+      rewrite row_width_app, row_width_single in Hwidth. cbn [snd] in Hwidth. rewrite calc_width_app in Hwidth.
+      cbn [calc_width] in Hwidth.
+      split; [reflexivity|]. split; [|split; [|split]].
+      * rewrite !row_cells_app, !row_cells_single. rewrite run_cells_split.
+        destruct (zlen nt0 =? 0) eqn:En.
+        -- assert (nt0 = []) by (apply zlen_zero_nil; lia). subst nt0. cbn [run_cells flat_map app].
+           rewrite <- !app_assoc. reflexivity.
+        -- rewrite row_cells_app, row_cells_single. rewrite <- !app_assoc. reflexivity.
+      * apply Forall_app. split.
+        -- destruct (zlen nt0 =? 0).
+           ++ eapply Forall_impl; [|exact Hfront0]. apply run_ok_weak.
+           ++ apply Forall_app. split; [eapply Forall_impl; [|exact Hfront0]; apply run_ok_weak|].
+              constructor; [|constructor]. split; assumption.
+        -- constructor; [|constructor]. split; [constructor; [exact Hzc|constructor]|exact Hzcs].
+      * split; [constructor; [exact Hyc|constructor]|exact Hycs].
+      * destruct (zlen nt0 =? 0) eqn:En.
+        -- assert (nt0 = []) by (apply zlen_zero_nil; lia). subst nt0. cbn [calc_width] in Hwidth. lia.
+        -- rewrite row_width_app, row_width_single. cbn [snd]. lia.
+  - (* Y and Z are in the same run *)
+    right. destruct (zlen lt0 <? 0) eqn:En; [lia|].
+    destruct (snoc_cases lt0) as [->|(lt1 & yc & ->)]; [rewrite zlen_nil in E0; lia|].
+    rewrite dropz_app_exact by reflexivity. rewrite takez_app_exact by reflexivity.
+    rewrite (calc_text_pos_last _ lt1 yc Hlt0).
+    assert (Hyc : chr_ok (g_utf8 c) yc) by (apply Forall_app in Hlt0 as [_ H]; apply Forall_inv in H; exact H).
+    assert (Hlt1 : Forall (chr_ok (g_utf8 c)) lt1) by (apply Forall_app in Hlt0 as [H _]; exact H).
+    rewrite dropz_app_exact by reflexivity. rewrite Hwz.
+    rewrite <- app_assoc. rewrite takez_app_exact by reflexivity.
+    exists (if zlen lt1 =? 0 then front else front ++ [(za, zcs, lt1)]), za, zcs, yc, za, zcs, zc.
+    rewrite calc_width_app in Hwidth. cbn [calc_width] in Hwidth.
+    split; [reflexivity|]. split; [|split; [|split]].
+    * rewrite !row_cells_app, !row_cells_single. rewrite app_assoc. rewrite !run_cells_split.
+      destruct (zlen lt1 =? 0) eqn:E1.
+      -- assert (lt1 = []) by (apply zlen_zero_nil; lia). subst lt1. cbn [run_cells flat_map app].
+         rewrite <- !app_assoc. reflexivity.
+      -- rewrite row_cells_app, row_cells_single. rewrite <- !app_assoc. reflexivity.
+    * apply Forall_app. split.
+      -- destruct (zlen lt1 =? 0).
+         ++ eapply Forall_impl; [|exact Hfront]. apply run_ok_weak.
+         ++ apply Forall_app. split; [eapply Forall_impl; [|exact Hfront]; apply run_ok_weak|].
+            constructor; [|constructor]. split; assumption.
+      -- constructor; [|constructor]. split; [constructor; [exact Hzc|constructor]|exact Hzcs].
+    * split; [constructor; [exact Hyc|constructor]|exact Hzcs].
+    * destruct (zlen lt1 =? 0) eqn:E1.
+      -- assert (lt1 = []) by (apply zlen_zero_nil; lia). subst lt1. cbn [calc_width] in Hwidth. lia.
+      -- rewrite row_width_app, row_width_single. cbn [snd]. lia.
+Qed.
+
+(* ================= 6. one row ================= *)
+Lemma vis_eq_refl e : vis_eq e e.
+Proof. unfold vis_eq. destruct (c_cp e =? 32); splits; auto. Qed.
+
+Lemma Forall2_vis_refl l : Forall2 vis_eq l l.
+Proof. induction l; constructor; auto using vis_eq_refl. Qed.
+
+Lemma Forall2_repeat_r {A B} (R : A -> B -> Prop) l e : Forall (fun x => R x e) l -> Forall2 R l (repeat e (length l)).
+Proof. induction 1; cbn [length repeat]; constructor; auto. Qed.
+
+Lemma rstrip_rev_spec r : exists sp, r = sp ++ rstrip_rev r /\ Forall (fun ch : chr => fst ch = 32) sp.
+Proof.
+  induction r as [|ch r IH].
+  - exists []. split; [reflexivity|constructor].
+  - cbn [rstrip_rev]. unfold is_space. destruct (fst ch =? 32) eqn:E.
+    + destruct IH as (sp & Hr & Hsp). exists (ch :: sp). split.
+      * cbn [app]. f_equal. exact Hr.
+      * constructor; [lia|exact Hsp].
+    + exists []. split; [reflexivity|constructor].
+Qed.
+
+Lemma rstrip_spec t : exists sp, t = rstrip t ++ sp /\ Forall (fun ch : chr => fst ch = 32) sp.
+Proof.
+  destruct (rstrip_rev_spec (rev t)) as (sp & Hr & Hsp). exists (rev sp). split.
+  - unfold rstrip. rewrite <- rev_app_distr. rewrite <- Hr. now rewrite rev_involutive.
+  - apply Forall_rev. exact Hsp.
+Qed.
+
+Lemma rstrip_last_space t0 ch : is_space ch = true -> rstrip (t0 ++ [ch]) = rstrip t0.
+Proof. intros H. unfold rstrip. rewrite rev_app_distr. cbn [rev app rstrip_rev]. rewrite H. reflexivity. Qed.
+
+Lemma emit_run_last c rs r : r_last (snd (emit_run c rs r)) = fst (fst r).
+Proof. destruct r as [[a cs] text]. reflexivity. Qed.
+
+Lemma emit_runs_last c front : forall rs r, r_last (snd (emit_runs c rs (front ++ [r]))) = fst (fst r).
+Proof.
+  induction front as [|r0 front IH]; intros rs r.
+  - cbn [app emit_runs]. destruct (emit_run c rs r) as [t1 s1] eqn:E. cbn [snd].
+    pose proof (emit_run_last c rs r) as H. rewrite E in H. exact H.
+  - cbn [app emit_runs]. destruct (emit_run c rs r0) as [t1 s1]. specialize (IH s1 r).
+    destruct (emit_runs c s1 (front ++ [r])) as [t2 s2]. exact IH.
+Qed.
+
+Definition RowDone (c : cfg) (t1 t2 : term) (y : Z) (row : crow) (rs2 : rstate) (keep_inv : Prop) : Prop :=
+  row_shows c row (get_row (t_grid t2) y) /\ SameFrame t1 t2 y /\
+  t_ibm t2 = false /\ t_irm t2 = false /\ (g_utf8 c = true -> t_so t2 = false) /\ (keep_inv -> Inv c rs2 t2).
+
+Lemma Inv_modes c rs t : Inv c rs t -> t_ibm t = false /\ t_irm t = false /\ (g_utf8 c = true -> t_so t = false).
+Proof. intros (_ & H1 & H2 & H3). splits; auto. intros U. rewrite U in H3. exact H3. Qed.
+
+Lemma zlen_row_cells c row : Forall (run_ok' c) row -> zlen (row_cells c row) = row_width row.
+Proof.
+  induction 1 as [|r row H _ IH]; [reflexivity|].
+  cbn [row_cells flat_map]. fold (row_cells c row). rewrite zlen_app, IH, row_width_cons. f_equal.
+  destruct r as [[a cs] text]. destruct H as [Ht _]. cbn [snd run_cells].
+  apply (zlen_text_cells cs (attr_vis c a) text). eapply Forall_chr_ok_w12; eauto.
+Qed.
+
+(* the whole row is printed *)
+Lemma row_plain_ok c rs row t0 t y R0 keep :
+  cfg_ok c -> Forall (run_ok' c) row -> Inv c rs t -> RowSt t y [] R0 -> SameFrame t0 t y -> 0 <= y < zlen (t_grid t0) ->
+  row_width row = t_cols t ->
+  RowDone c t0 (run t (fst (emit_runs c rs row))) y row (snd (emit_runs c rs row)) keep.
+Proof.
+  intros Hc Hok HI HR HF Hy Hw.
+  destruct (emit_runs_ok c row rs t0 t y [] R0 Hc Hok HI HR HF Hy) as (R' & HR' & HF' & HI' & _).
+  { rewrite zlen_nil. lia. }
+  cbn [app] in HR'. destruct HR' as (_ & Hrow & Hlen & _).
+  rewrite zlen_row_cells in Hlen by assumption.
+  rewrite (SameFrame_cols _ _ _ HF'), <- (SameFrame_cols _ _ _ HF) in Hlen.
+  assert (R' = []) by (apply zlen_zero_nil; lia). subst R'. rewrite app_nil_r in Hrow.
+  pose proof (Inv_modes _ _ _ HI') as (M1 & M2 & M3).
+  unfold RowDone. splits; auto. unfold row_shows. rewrite Hrow. apply Forall2_vis_refl.
+Qed.
+
+Lemma Inv_same_modes c rs t t' : SameModes t t' -> t_g1 t' = t_g1 t -> Inv c rs t -> Inv c rs t'.
+Proof.
+  intros (M1 & M2 & M3 & M4) G (I1 & I2 & I3 & I4). unfold Inv. rewrite M1, M2, M3, M4, G. splits; auto.
+Qed.
+
+Lemma sul_false_flags c a : using_sul c a = false ->
+  a_under (attr_vis c a) = false /\ a_stand (attr_vis c a) = false /\ a_strike (attr_vis c a) = false.
+Proof.
+  unfold using_sul, attr_vis. destruct (lookup_attr c a) as [k sp]. destruct (k =? 2).
+  - intros _. cbn. auto.
+  - intros H. cbn. destruct (s_stand sp), (s_under sp), (s_strike sp); cbn in H; try discriminate; auto.
+Qed.
+
+Lemma spaces_cells cs v sp : Forall (chr_ok true) sp \/ Forall (chr_ok false) sp ->
+  Forall (fun ch : chr => fst ch = 32) sp ->
+  text_cells cs v sp = repeat (mkCell 32 1 cs v) (length sp) /\ calc_width sp = zlen sp.
+Proof.
+  intros Hok Hsp. induction Hsp as [|ch sp H32 Hsp IH].
+  - split; reflexivity.
+  - assert (Hw : snd ch = 1).
+    { destruct Hok as [Hok|Hok]; apply Forall_inv in Hok; destruct Hok as (_ & _ & Hs); auto. }
+    assert (Hok' : Forall (chr_ok true) sp \/ Forall (chr_ok false) sp).
+    { destruct Hok as [Hok|Hok]; [left|right]; eapply Forall_inv_tail; eauto. }
+    destruct (IH Hok') as [IH1 IH2]. split.
+    + cbn [text_cells flat_map length repeat]. fold (text_cells cs v sp). rewrite IH1, H32, Hw. reflexivity.
+    + cbn [calc_width]. rewrite zlen_cons, IH2, Hw. reflexivity.
+Qed.
+
+(* trailing blanks of the last run are erased instead of printed *)
+Lemma row_ws_ok c rs front a cs text t0 t y R0 keep :
+  cfg_ok c -> Forall (run_ok' c) (front ++ [(a, cs, text)]) -> Inv c rs t -> RowSt t y [] R0 -> SameFrame t0 t y ->
+  0 <= y < zlen (t_grid t0) -> row_width (front ++ [(a, cs, text)]) = t_cols t ->
+  (match last_opt text with Some ch => is_space ch | None => false end) = true ->
+  using_sul c a = false -> t_bce t = true ->
+  RowDone c t0 (run t (fst (emit_runs c rs (front ++ [(a, cs, rstrip text)])) ++ [TEl])) y
+          (front ++ [(a, cs, text)]) (snd (emit_runs c rs (front ++ [(a, cs, rstrip text)]))) keep.
+Proof.
+  intros Hc Hok HI HR HF Hy Hw Hsp Hsul Hbce.
+  (* the stripped blanks *)
+  destruct (snoc_cases text) as [->|(r0 & ch & ->)]; [discriminate|].
+  rewrite last_opt_snoc in Hsp. rewrite (rstrip_last_space r0 ch Hsp).
+  destruct (rstrip_spec r0) as (sp0 & Hr0 & Hsp0).
+  set (tx := rstrip r0) in *. set (sp := sp0 ++ [ch]).
+  assert (Htext : r0 ++ [ch] = tx ++ sp) by (unfold sp; rewrite app_assoc, <- Hr0; reflexivity).
+  assert (Hspaces : Forall (fun ch : chr => fst ch = 32) sp).
+  { unfold sp. apply Forall_app. split; [exact Hsp0|]. constructor; [|constructor]. unfold is_space in Hsp. lia. }
+  rewrite Htext in *.
+  apply Forall_app in Hok as [Hfront Hl]. apply Forall_inv in Hl. destruct Hl as [Hchars Hcs].
+  apply Forall_app in Hchars as [Htx Hspok].
+  assert (Hrow' : Forall (run_ok' c) (front ++ [(a, cs, tx)])).
+  { apply Forall_app. split; [exact Hfront|]. constructor; [|constructor]. split; assumption. }
+  destruct (spaces_cells cs (attr_vis c a) sp) as [Hcells Hwsp]; auto.
+  { destruct (g_utf8 c); auto. }
+  assert (Hsplen : 1 <= zlen sp). { unfold sp. rewrite zlen_app, zlen_cons, zlen_nil. pose proof (zlen_nonneg sp0). lia. }
+  rewrite row_width_app, row_width_single in Hw. cbn [snd] in Hw. rewrite calc_width_app, Hwsp in Hw.
+  assert (Hw' : row_width (front ++ [(a, cs, tx)]) = t_cols t - zlen sp).
+  { rewrite row_width_app, row_width_single. cbn [snd]. lia. }
+  destruct (emit_runs_ok c (front ++ [(a, cs, tx)]) rs t0 t y [] R0 Hc Hrow' HI HR HF Hy) as (R' & HR' & HF' & HI' & _).
+  { rewrite zlen_nil. lia. }
+  cbn [app] in HR'. set (rs2 := snd (emit_runs c rs (front ++ [(a, cs, tx)]))) in *.
+  set (t2 := run t (fst (emit_runs c rs (front ++ [(a, cs, tx)])))) in *.
+  assert (Hcols2 : t_cols t2 = t_cols t) by (rewrite (SameFrame_cols _ _ _ HF'), (SameFrame_cols _ _ _ HF); reflexivity).
+  assert (HzP : zlen (row_cells c (front ++ [(a, cs, tx)])) = t_cols t - zlen sp).
+  { rewrite zlen_row_cells by assumption. exact Hw'. }
+  rewrite run_app. fold t2. cbn [run fold_left].
+  destruct (el_ok t0 t2 y _ _ HR' HF') as (Hrow & HF3 & HM3 & _).
+  { rewrite (SameFrame_len _ _ _ HF'). exact Hy. }
+  { rewrite HzP, Hcols2. lia. }
+  assert (E4 : Inv c rs2 (step t2 TEl)).
+  { eapply Inv_same_modes; [exact HM3| |exact HI']. eapply SameFrame_g1; eauto. }
+  pose proof (Inv_modes _ _ _ E4) as (E1 & E2 & E3).
+  unfold RowDone. splits; auto.
+  - unfold row_shows. rewrite Hrow.
+    rewrite row_cells_app, row_cells_single, run_cells_split.
+    rewrite app_assoc. rewrite <- (row_cells_single c (a, cs, tx)), <- row_cells_app.
+    apply Forall2_app; [apply Forall2_vis_refl|].
+    change (run_cells c (a, cs, sp)) with (text_cells cs (attr_vis c a) sp). rewrite Hcells.
+    replace (Z.to_nat (t_cols t2 - zlen (row_cells c (front ++ [(a, cs, tx)])))) with (length sp)
+      by (rewrite HzP, Hcols2; unfold zlen; lia).
+    rewrite <- (repeat_length (mkCell 32 1 cs (attr_vis c a)) (length sp)) at 2.
+    apply Forall2_repeat_r. apply Forall_forall. intros e He. apply repeat_spec in He. subst e.
+    destruct HI' as (Hattr & _). fold rs2 in Hattr.
+    assert (Hlast : r_last rs2 = a) by (unfold rs2; rewrite emit_runs_last; reflexivity).
+    rewrite Hlast in Hattr.
+    assert (Hbce2 : t_bce t2 = true).
+    { destruct HF' as (_ & _ & _ & _ & _ & _ & B & _). destruct HF as (_ & _ & _ & _ & _ & _ & B0 & _). congruence. }
+    destruct (sul_false_flags c a Hsul) as (F1 & F2 & F3).
+    unfold vis_eq, erase_cell. cbn. rewrite Hbce2, Hattr, F1, F2, F3. splits; auto. change (32 =? 32) with true. cbv iota. splits; auto. intros; discriminate.
+Qed.
+
+Lemma WFc_row_cells c row : Forall (run_ok' c) row -> WFc (row_cells c row).
+Proof.
+  induction 1 as [|r row H _ IH]; [constructor|].
+  cbn [row_cells flat_map]. apply WFc_app; [|exact IH].
+  destruct r as [[a cs] text]. destruct H as [Ht _]. cbn [run_cells].
+  apply (WFc_text_cells cs (attr_vis c a) text). eapply Forall_chr_ok_w12; eauto.
+Qed.
+
+Lemma RowSt_set_pos_back t y P Zc R :
+  RowSt t y (P ++ Zc) R -> WFc P -> zlen (P ++ Zc) < t_cols t ->
+  RowSt (set_pos t (zlen P) y false) y P (Zc ++ R).
+Proof.
+  intros (Hy & Hrow & Hlen & _ & _) HwP Hlt. unfold RowSt. cbn.
+  rewrite zlen_app in *. pose proof (zlen_nonneg Zc). rewrite <- app_assoc in Hrow.
+  splits; auto.
+  - rewrite ?zlen_app. lia.
+  - assert (E : zlen P <? t_cols t = true) by lia. rewrite E. auto.
+Qed.
+
+(* the bottom-right cell: Z is drawn in the place of Y, then Y is inserted in front of it *)
+Lemma row_trick_ok c rs nr0 ya ycs yc za zcs zc row t0 t y R0 :
+  cfg_ok c -> Forall (run_ok' c) (nr0 ++ [(za, zcs, [zc])]) -> run_ok' c (ya, ycs, [yc]) ->
+  row_cells c row = row_cells c nr0 ++ run_cells c (ya, ycs, [yc]) ++ run_cells c (za, zcs, [zc]) ->
+  row_width nr0 + snd yc + snd zc = t_cols t ->
+  Inv c rs t -> RowSt t y [] R0 -> SameFrame t0 t y -> 0 <= y < zlen (t_grid t0) ->
+  RowDone c t0
+    (run t (fst (emit_runs c rs (nr0 ++ [(za, zcs, [zc])]))
+            ++ emit_ins c (snd (emit_runs c rs (nr0 ++ [(za, zcs, [zc])]))) (snd zc) (ya, ycs, [yc])))
+    y row (snd (emit_runs c rs (nr0 ++ [(za, zcs, [zc])]))) False.
+Proof.
+  intros Hc Hnr Hyr Hcells Hw HI HR HF Hy.
+  set (nr := nr0 ++ [(za, zcs, [zc])]) in *.
+  destruct Hyr as [Hyc Hycs]. apply Forall_inv in Hyc.
+  assert (Hnr0 : Forall (run_ok' c) nr0) by (apply Forall_app in Hnr as [H _]; exact H).
+  assert (Hzr : run_ok' c (za, zcs, [zc])) by (apply Forall_app in Hnr as [_ H]; apply Forall_inv in H; exact H).
+  destruct Hzr as [Hzc Hzcs]. apply Forall_inv in Hzc.
+  assert (Hwy : snd yc = 1 \/ snd yc = 2) by (eapply chr_ok_w12; eauto).
+  assert (Hwz : snd zc = 1 \/ snd zc = 2) by (eapply chr_ok_w12; eauto).
+  pose proof (row_width_nonneg c nr0 Hnr0) as Hn0.
+  assert (Hwnr : row_width nr = t_cols t - snd yc).
+  { unfold nr. rewrite row_width_app, row_width_single. cbn [snd calc_width]. lia. }
+  destruct (emit_runs_ok c nr rs t0 t y [] R0 Hc Hnr HI HR HF Hy) as (R' & HR2 & HF2 & HI2 & _).
+  { rewrite zlen_nil. lia. }
+  cbn [app] in HR2. set (rs2 := snd (emit_runs c rs nr)) in *. set (t2 := run t (fst (emit_runs c rs nr))) in *.
+  assert (Hcols2 : t_cols t2 = t_cols t) by (rewrite (SameFrame_cols _ _ _ HF2), (SameFrame_cols _ _ _ HF); reflexivity).
+  set (Zc := run_cells c (za, zcs, [zc])) in *. set (Yc := run_cells c (ya, ycs, [yc])) in *.
+  assert (Hsplit : row_cells c nr = row_cells c nr0 ++ Zc).
+  { unfold nr. rewrite row_cells_app, row_cells_single. reflexivity. }
+  assert (HzZ : zlen Zc = snd zc).
+  { unfold Zc. cbn [run_cells flat_map]. rewrite app_nil_r. apply zlen_char_cells. lia. }
+  assert (HwZ : WFc Zc).
+  { unfold Zc. cbn [run_cells flat_map]. rewrite app_nil_r. apply WFc_char_cells. lia. }
+  assert (Hz0 : zlen (row_cells c nr0) = row_width nr0) by (apply zlen_row_cells; exact Hnr0).
+  assert (HzP : zlen (row_cells c nr) = t_cols t - snd yc) by (rewrite zlen_row_cells by exact Hnr; exact Hwnr).
+  assert (Hlen2 : zlen (t_grid t2) = zlen (t_grid t0)) by (apply (SameFrame_len _ _ _ HF2)).
+  (* where the terminal is after Z *)
+  pose proof HR2 as (Hy2 & Hrow2 & Hlen2' & _ & Hpos2).
+  assert (Elt : zlen (row_cells c nr) <? t_cols t2 = true) by lia. rewrite Elt in Hpos2. destruct Hpos2 as [Hx2 Hp2].
+  assert (HzR' : zlen R' = snd yc) by lia.
+  pose proof (Inv_modes _ _ _ HI2) as (Hibm2 & Hirm2 & Hso2).
+  (* backspaces *)
+  unfold emit_ins. rewrite !run_app. fold t2.
+  assert (Hbs : run t2 (repeat TBs (Z.to_nat (snd zc))) = set_pos t2 (zlen (row_cells c nr0)) y false).
+  { rewrite bs_run by (rewrite Hx2, Hsplit, zlen_app, HzZ; pose proof (zlen_nonneg (row_cells c nr0)); lia).
+    destruct (Z.to_nat (snd zc)) eqn:En; [lia|]. f_equal; [|exact Hy2].
+    rewrite Hx2, Hsplit, zlen_app, HzZ. lia. }
+  rewrite Hbs. set (t3 := set_pos t2 (zlen (row_cells c nr0)) y false).
+  assert (HR3 : RowSt t3 y (row_cells c nr0) (Zc ++ R')).
+  { apply RowSt_set_pos_back; [rewrite <- Hsplit; exact HR2|apply WFc_row_cells; exact Hnr0|].
+    rewrite <- Hsplit. lia. }
+  assert (HF3 : SameFrame t0 t3 y) by (unfold SameFrame in *; cbn; exact HF2).
+  (* attribute of Y *)
+  rewrite attr_escape_run by assumption. set (t4 := set_attr t3 (attr_vis c ya)).
+  (* charset of Y *)
+  set (tc := if negb (g_utf8 c) then (if r_lcs rs2 =? 2 then [TIbmOff] else []) ++ [cs_tok ycs] else []).
+  assert (H5 : exists t5, run t4 tc = t5 /\ RowSt t5 y (row_cells c nr0) (Zc ++ R') /\ SameFrame t0 t5 y
+                 /\ t_attr t5 = attr_vis c ya /\ cur_cs t5 = ycs /\ t_ibm t5 = false /\ t_irm t5 = false
+                 /\ (g_utf8 c = true -> t_so t5 = false)).
+  { unfold tc. destruct (g_utf8 c) eqn:U; cbn [negb].
+    - exists t4. subst ycs. splits; auto using RowSt_set_attr, SameFrame_set_attr.
+      unfold cur_cs. cbn. rewrite Hibm2, (Hso2 eq_refl). reflexivity.
+    - destruct HI2 as (_ & _ & _ & HI2). rewrite U in HI2. destruct HI2 as (Hg1 & Hl & _).
+      assert (L2 : r_lcs rs2 =? 2 = false) by lia. rewrite L2. cbn [app].
+      destruct Hycs as [-> | ->].
+      + exists (set_so t4 false). unfold cs_tok. change (0 =? 0) with true. cbn [run fold_left step].
+        splits; auto using RowSt_set_so, RowSt_set_attr, SameFrame_set_so, SameFrame_set_attr; try discriminate.
+        unfold cur_cs. cbn. rewrite Hibm2. reflexivity.
+      + exists (set_so t4 true). unfold cs_tok. change (1 =? 0) with false. change (1 =? 2) with false.
+        cbn [run fold_left step].
+        splits; auto using RowSt_set_so, RowSt_set_attr, SameFrame_set_so, SameFrame_set_attr; try discriminate.
+        unfold cur_cs. cbn. rewrite Hibm2, Hg1. reflexivity. }
+  fold tc. destruct H5 as (t5 & -> & HR5 & HF5 & Hat5 & Hcs5 & Hibm5 & Hirm5 & Hso5).
+  (* insert Y *)
+  cbn [map]. rewrite (run_cons t5 TIrmOn). cbn [step]. set (t6 := set_irm t5 true).
+  rewrite (run_cons t6 (ch_tok yc)). unfold ch_tok. cbn [step].
+  assert (HR6 : RowSt t6 y (row_cells c nr0) (Zc ++ R')) by (apply RowSt_set_irm; exact HR5).
+  assert (HF6 : SameFrame t0 t6 y) by (apply SameFrame_set_irm; exact HF5).
+  assert (Hy6 : 0 <= y < zlen (t_grid t6)) by (cbn; rewrite (SameFrame_len _ _ _ HF5); exact Hy).
+  destruct (put_ins_ok t0 t6 y (row_cells c nr0) Zc R' (fst yc) (snd yc) HR6 HF6 Hy6 eq_refl Hwy HzR' HwZ)
+    as (HR7 & HF7 & HM7).
+  set (t7 := put t6 (fst yc) (snd yc)) in *.
+  assert (Etail : (if negb (g_utf8 c) && (ycs =? 2) then [TIbmOff] else []) = []).
+  { destruct (g_utf8 c); [reflexivity|]. destruct Hycs as [-> | ->]; reflexivity. }
+  rewrite Etail. cbn [run fold_left step].
+  destruct HM7 as (M1 & M2 & M3 & M4). cbn in M1, M2, M3, M4.
+  unfold RowDone. splits; try (cbn; congruence); try contradiction.
+  - unfold row_shows. cbn [t_grid set_irm].
+    destruct HR7 as (_ & Hrow7 & _). rewrite Hrow7.
+    assert (EY : char_cells (fst yc) (snd yc) (cur_cs t6) (t_attr t6) = Yc).
+    { unfold Yc. cbn [run_cells flat_map]. rewrite app_nil_r.
+      replace (cur_cs t6) with ycs by (unfold cur_cs in *; cbn; exact (eq_sym Hcs5)).
+      replace (t_attr t6) with (attr_vis c ya) by (cbn; congruence). reflexivity. }
+    rewrite EY, Hcells, <- app_assoc. apply Forall2_vis_refl.
+  - unfold SameFrame in *. cbn. exact HF7.
+  - intros U. cbn. rewrite M3. cbn. apply Hso5. exact U.
+Qed.
+
+(* ================= 7. the row loop ================= *)
+Record LoopInv (c : cfg) (cols rows : Z) (tb : term) (content : list crow) (y : Z) (acc : dacc) (t : term) : Prop := mkLI {
+  li_ru : d_ru acc = None;
+  li_sb : d_sb acc = takez y content;
+  li_inv : y < rows -> Inv c (d_rs acc) t;
+  li_ibm : t_ibm t = false;
+  li_irm : t_irm t = false;
+  li_so : g_utf8 c = true -> t_so t = false;
+  li_cols : t_cols t = cols;
+  li_rows : t_rows t = rows;
+  li_len : zlen (t_grid t) = rows;
+  li_scr : t_scrolled t = t_scrolled tb;
+  li_vis : t_visible t = t_visible tb;
+  li_bce : t_bce t = t_bce tb;
+  li_g1 : t_g1 t = t_g1 tb;
+  li_home : y = 0 -> t_x t = 0 /\ t_y t = 0 /\ t_pending t = false;
+  li_done : forall y' row, 0 <= y' < y -> nthz content y' = Some row -> row_shows c row (get_row (t_grid t) y');
+  li_rest : forall y', y <= y' -> get_row (t_grid t) y' = get_row (t_grid tb) y' }.
+
+Lemma takez_succ {A} (l : list A) y x : nthz l y = Some x -> takez (y + 1) l = takez y l ++ [x].
+Proof.
+  intros H. destruct (nthz_split l y x H) as [Hl Hr]. rewrite Hl at 1.
+  replace (takez y l ++ x :: dropz (y + 1) l) with ((takez y l ++ [x]) ++ dropz (y + 1) l) by (now rewrite <- app_assoc).
+  apply takez_app_exact. rewrite zlen_app, zlen_cons, zlen_nil, zlen_takez by lia. lia.
+Qed.
+
+Lemma text_eqb_eq a : forall b, text_eqb a b = true -> a = b.
+Proof.
+  induction a as [|x a IH]; intros [|y b] H; cbn [text_eqb] in H; try discriminate; [reflexivity|].
+  apply andb_prop in H as [H1 H2]. unfold chr_eqb in H1. apply andb_prop in H1 as [H3 H4].
+  destruct x, y. cbn [fst snd] in *. f_equal; [f_equal; lia|]. apply IH; exact H2.
+Qed.
+
+Lemma run_eqb_eq a b : run_eqb a b = true -> a = b.
+Proof.
+  destruct a as [[aa ac] at_], b as [[ba bc] bt]. unfold run_eqb. intros H.
+  apply andb_prop in H as [H H3]. apply andb_prop in H as [H1 H2].
+  apply text_eqb_eq in H3. f_equal; [f_equal; lia|exact H3].
+Qed.
+
+Lemma row_eqb_eq a : forall b, row_eqb a b = true -> a = b.
+Proof.
+  induction a as [|x a IH]; intros [|y b] H; cbn [row_eqb] in H; try discriminate; [reflexivity|].
+  apply andb_prop in H as [H1 H2]. apply run_eqb_eq in H1. f_equal; [exact H1|apply IH; exact H2].
+Qed.
+
+(* cursor positioning before a row *)
+Lemma position_ok c cols rows tb content y acc t :
+  LoopInv c cols rows tb content y acc t -> 0 <= y < rows -> 1 <= cols ->
+  zlen (get_row (t_grid tb) y) = cols ->
+  let t1 := run t (if negb (y =? 0) || false then set_cursor_position false (d_cy acc) 0 y else []) in
+  (t1 = t \/ t1 = set_pos t 0 y false) /\ RowSt t1 y [] (get_row (t_grid t) y).
+Proof.
+  intros L Hy Hc Hrow. destruct L.
+  assert (Hr : get_row (t_grid t) y = get_row (t_grid tb) y) by (apply li_rest0; lia).
+  destruct (y =? 0) eqn:E; cbn [negb orb].
+  - assert (y = 0) by lia. subst y. destruct (li_home0 eq_refl) as (Hx & Hy0 & Hp).
+    cbn [run fold_left]. split; [left; reflexivity|].
+    unfold RowSt. rewrite zlen_nil. cbn [app]. splits; auto.
+    + rewrite Hr. lia.
+    + constructor.
+    + assert (E' : 0 <? t_cols t = true) by lia. rewrite E'. auto.
+  - unfold set_cursor_position. cbn [negb run fold_left].
+    rewrite cup_ok by lia. split; [right; reflexivity|].
+    unfold RowSt. cbn. rewrite zlen_nil. cbn [app]. splits; auto.
+    + rewrite Hr. lia.
+    + constructor.
+    + assert (E' : 0 <? t_cols t = true) by lia. rewrite E'. auto.
+Qed.
+
+Lemma loop_next c cols rows tb content osb y row acc t t1 t2 rs2 out' (keep : Prop) :
+  LoopInv c cols rows tb content y acc t -> 0 <= y < rows ->
+  nthz content y = Some row ->
+  (t1 = t \/ t1 = set_pos t 0 y false) ->
+  RowDone c t1 t2 y row rs2 keep -> (y + 1 < rows -> keep) ->
+  LoopInv c cols rows tb content (y + 1) (mkAcc out' (d_sb acc ++ [row]) y rs2 None) t2.
+Proof.
+  intros L Hy Hrow Ht1 (Hshow & HF & Hibm & Hirm & Hso & Hinv) Hkeep. destruct L.
+  assert (G : t_grid t1 = t_grid t /\ t_cols t1 = t_cols t /\ t_rows t1 = t_rows t /\ t_scrolled t1 = t_scrolled t
+              /\ t_visible t1 = t_visible t /\ t_bce t1 = t_bce t /\ t_g1 t1 = t_g1 t).
+  { destruct Ht1 as [-> | ->]; cbn; splits; reflexivity. }
+  destruct G as (G1 & G2 & G3 & G4 & G5 & G6 & G7).
+  destruct HF as (F1 & F2 & F3 & F4 & F5 & F6 & F7 & F8).
+  constructor; cbn [d_ru d_sb d_rs d_out d_cy]; try congruence.
+  - rewrite li_sb0. symmetry. apply takez_succ. exact Hrow.
+  - intros H. apply Hinv. apply Hkeep. lia.
+  - rewrite F3, G1. exact li_len0.
+  - intros H. lia.
+  - intros y' row' Hy' Hn. destruct (Z.eq_dec y' y) as [->|Hne].
+    + rewrite Hrow in Hn. inversion Hn; subst. exact Hshow.
+    + rewrite F4 by exact Hne. rewrite G1. apply li_done0; [lia|exact Hn].
+  - intros y' Hy'. rewrite F4 by lia. rewrite G1. apply li_rest0. lia.
+Qed.
